@@ -30,17 +30,17 @@ CLAIMED["C15"] = dict(technique=_SRV_T + "; Notify direction discipline", note=_
 CLAIMED["C16"] = dict(technique=_SRV_T + "; fail-closed comparison edges", note=_SRV_N, ref="DESIGN.md §4 C16",
     text="All four leader/hash comparison edges, the leader's joined validate results and garble_lang::check are fail-closed with respect to Validated and every Ok reply (mismatch edge: error reply to the validate caller + Break; good edge dominates Validated); check dominates every effect of schedule; polytune::mpc is started only from run x Running and the states leading there are entered only from their predecessors.")
 CLAIMED["C17"] = dict(technique=_SRV_T + "; permit typestate by dominance", note=_SRV_N + " The numeric bound itself is the tokio semaphore's contract.", ref="DESIGN.md §4 C17",
-    text="Permit typestate along the extracted relation: the only acquire_owned is in the leader branch of schedule and its completed await dominates run fan-out / Validated / self Run; the permit is taken exactly in run x Running before the spawn and bound inside the future that awaits polytune::mpc with no drop before the call; the Err edge of every joined RPC fan-out (validate, run, consts) ends the policy on every path, notifies the destination if present and never advances the state.")
+    text="Permit typestate along the extracted relation: the only acquire_owned is in the leader branch of schedule and its completed await dominates run fan-out / Validated / self Run; the permit is taken exactly in run x Running before the spawn and bound inside the future that awaits polytune::mpc with no drop before the call; the Err edge of every joined RPC fan-out (validate, run, consts) ends the policy on every path, notifies the destination if present and never advances the state; an HTTP handle leaves the routing table only after its state machine ended (an orphaned machine would keep its permit).")
 _R2_T = "abort-check discovery over rustc MIR: message components by structure-preserving value flow from each receive label, branch conditions classified by ingredients (received bit/MAC, Delta, key, open_commitment, clmul, literals), fail-closed edge analysis, dominance of uses, loop-bypass analysis; obligation table per label"
 _R2_N = "Trusted: rustc MIR (normalised: new local helpers spliced into their callers, std adaptor models, variant threading - DESIGN.md 12.2); component = value reached from a receive result through structure-preserving edges inside the receiving function; abort check = one branch edge cannot reach Ok(..). Not decided: cryptographic sufficiency of the checks, forgery probability, weakened-but-still-keyed comparisons."
 CLAIMED["C02"] = dict(technique=_R2_T, note=_R2_N, ref="DESIGN.md §3 R2, §4 C02, Appendix B",
     text="For every protocol message that can influence an output bit, on every CFG path (= for every adversarial message, index, party): the demanded fail-closed checks exist with the right ingredients (R2.1), received bits are used only behind their MAC check (R2.3), absent shares are errors (R2.4), MAC-check loops cannot be shortened by peer-sized vectors (R2.5), no iteration bypasses a check except own-party skips (R2.7), equivocation-sensitive labels use verified broadcast (R2.6), every comparison of a compound abort condition rejects on its own (R2.10), the conflicting-mask test inspects the own masked inputs (R2.11), no equality test is applied to a fold over a received vector (R2.8), the AEAD row key binds all GarblingKey fields (R2.key), symmetric commit/reveal folds bind the committer id (R3.bind-id). Structural necessary conditions of integrity.")
 CLAIMED["C03"] = dict(technique=_R2_T + "; decrypt result propagation", note=_R2_N, ref="DESIGN.md §4 C03",
-    text="Per authenticated field of each online-phase message the consuming party has a fail-closed abort check (exists, right ingredients, dominates the use, every element and sender, absent => Err), masked inputs use the verified broadcast with conflict rejection, and AEAD failure of garble::decrypt is returned as Err.")
+    text="(The echo round behind the verified broadcast is checked here as well: comparison fail-closed, all (echoing party, sender) pairs.) Per authenticated field of each online-phase message the consuming party has a fail-closed abort check (exists, right ingredients, dominates the use, every element and sender, absent => Err), masked inputs use the verified broadcast with conflict rejection, and AEAD failure of garble::decrypt is returned as Err.")
 CLAIMED["C04"] = dict(technique=_R2_T + "; must-precede across awaits by Ready-edge dominance; enumeration of shared-generator draws/clones", note=_R2_N + " Known findings (5, all challenge-generator timing/cloning) recorded in known_findings.json.", ref="DESIGN.md §3 R2/R3/R4, §4 C04",
     text="Preprocessing: every verification step named by the property has a fail-closed check reached by the corresponding receive (coin toss, aBit, aShare, LaAND, buckets, Beaver, KOS, Ristretto, echo broadcast), every received commitment component is opened, commit rounds complete (await Ready edge) before the reveal exchange is created and the revealed local is the committed one, and every draw from / clone of a shared challenge generator is enumerated. Genuine protocol-level defects of the pinned tree are recorded as known findings.")
 CLAIMED["C08"] = dict(
-    technique="type-resolved enumeration of panic-capable sinks on message components (index/slice/unwrap/alloc) with validated-nesting-level and dominating length-guard analysis; Result-drop analysis; await/guard analysis (rustc MIR)",
+    technique="type-resolved enumeration of panic-capable sinks on message components (index/slice/unwrap/alloc, lengths of peer-sized vectors used as bounds or minuends) with validated-nesting-level and dominating length-guard analysis; Result-drop analysis; await/guard analysis (rustc MIR)",
     text="For every receive reachable from mpc and every malformed message at once: no index/slice/copy_from_slice on a vector of a received message below the nesting level validated on receipt unless behind a fail-closed length test on exactly that vector (or a whole-collection test); no unwrap/expect on message-derived values (AEAD plaintext, decrypt Result, popped elements) except fixed-size conversion of length-validated vectors; no received integer reaches an index, bound, divisor or allocation size; wire types are decoded by derived serde implementations only (no byte-buffer decoding that allocates a claimed length); index sinks on own data under a peer-chosen optional slot are enumerated against a reviewed table; no Result of channel/protocol error types is discarded; every await polls engine futures only and no std MutexGuard lives across a yield.",
     note="Trusted: rustc MIR; bincode/serde capped pre-allocation; a user-supplied Channel errors when the peer is gone (SimpleChannel test double excluded). Time bounds and the dealer path (unreachable from mpc) are not decided.",
     ref="DESIGN.md §3 R1/R-ERR, §4 C08")
@@ -50,9 +50,9 @@ CLAIMED["C06"] = dict(
     note="Trusted: rand::random / ThreadRng / Scalar::random are cryptographically secure; distributional claims (balance, uniqueness across runs) need execution and are declined.",
     ref="DESIGN.md §3 R6.1-R6.3, §4 C06")
 CLAIMED["C07"] = dict(
-    technique="declassification analysis: per-function forward flow from Delta-typed / label sources to send payloads with sanitizers (hash, AEAD, OT sender, XOR with own key/label pad); claimed-bit MAC rule",
+    technique="declassification analysis: per-function forward flow from Delta-typed / label sources to send payloads with sanitizers (hash, AEAD, OT sender, XOR with own key/label pad); claimed-bit MAC rule; peer-selected Delta offset rule (control dependence on received bits)",
     text="Every flow of the global key Delta to a message payload passes through a hash, garble::encrypt, the correlated-OT sender, or an XOR with an own Key/Label-derived value that is not a message component (Delta combined only with public or peer-held values alarms); own wire labels reach a payload only inside AEAD rows / key derivation or through the select Label ^ Delta; the claimed bits of aShare are MAC-checked, before the key sum is opened and against the value that is opened (repaired defect, rule kept); the AEAD row key binds both input labels (one label per wire and garbler); no equality test is applied to a fold over a received vector; no send computed from a message precedes the checks demanded for it; Delta, labels and OT session generators are seeded from private randomness and no private generator is cloned. Combination leaks across several legitimate messages are value-level and not decided.",
-    note="Trusted: one-wayness of blake3 / AES hashes / AEAD / OT sender for Delta. Per-function flow with call summaries (result depends on arguments).",
+    note="Trusted: one-wayness of blake3 / AES hashes / AEAD / OT sender for Delta. Per-function flow with call summaries (result depends on arguments). Known finding (1): R6.6 flaand hash - the unauthenticated e bit of the leaky AND selects a Delta offset of the opened H_i (recorded in known_findings.json, demo under fixes/FX14_flaand_e_bit_delta_leak). Also R6.6: a Delta-carrying value hidden only by own keys whose presence of Delta is decided by a received bit reaches a send only after a MAC check of that bit; a Label pad with a literal in its provenance does not count as a pad.",
     ref="DESIGN.md §3 R6.4, §4 C07")
 CLAIMED["C09"] = dict(
     technique="codec who-may-construct rule + secret value-taint over the whole-program flow graph with control-dependence regions of secret-conditioned branches (rustc MIR)",
